@@ -37,7 +37,7 @@ EXPLANATION = (
     'first output repeated when cyclic (E3); categorical inputs equal to '
     'default_input_value are mapped to the last bucket and looked up by a '
     'one-hot of depth num_buckets over the bucket axis (E6).'
-    ' Also decided: in each input form the output depends on every configured source of missingness (flag tensor, comparison with missing_input_value) (E5, influence analysis); the learned closing keypoint is keypoint_min + sum of the lengths; constants built in the evaluation take the operand dtype (D1); numeric options are not truth-tested (N0).')
+    ' Also decided: in each input form the output depends on every configured source of missingness (flag tensor, comparison with missing_input_value) (E5, influence analysis); the learned closing keypoint is keypoint_min + sum of the lengths; constants built in the evaluation take the operand dtype (D1); numeric options are not truth-tested (N0); a vector replicated into the initial value of a [units, pieces] variable is replicated row-wise (E7).')
 ASSUMPTIONS = ['tf.minimum/maximum/concat/cumsum/one_hot/where semantics',
                'kernel layout (keypoints or buckets, units)']
 
@@ -93,7 +93,64 @@ def run(prog, res):
   res.floor('E4', 2)
   _missing_sources(prog, res)
   res.floor('E5', 5)
+  _replication_layout(prog, res)
+  res.floor('E7', 1)
   res.floor('E6', 4)
+
+
+def _replication_layout(prog, res):
+  """E7: a vector v replicated into the flat initial value of a rank-2
+  variable of shape [A, B] (row-major) must be replicated the way the shape
+  says: np.tile(v, A) puts one copy of v in every ROW (len(v) == B),
+  np.repeat(v, B) puts v[i] B times into row i (len(v) == A).  The other
+  pairing has the right number of elements and scrambles them (invisible for
+  one unit or for a constant v)."""
+  from ..model import straightline_value
+  fn = prog.function(PL + '.build')
+  n = 0
+  for call in ast.walk(fn.node):
+    if not (isinstance(call, ast.Call) and isinstance(
+        call.func, ast.Attribute) and call.func.attr == 'add_weight'):
+      continue
+    kw = {k.arg: k.value for k in call.keywords}
+    shp, ini = kw.get('shape'), kw.get('initializer')
+    if not (isinstance(shp, (ast.List, ast.Tuple)) and len(shp.elts) == 2 and
+            isinstance(ini, ast.Call) and (prog.ext_name(
+                fn.module, ini.func) or '').endswith('constant_initializer')
+            and ini.args):
+      continue
+    v = ini.args[0]
+    # the value by definition (locals of the enclosing block included)
+    hops = 0
+    while isinstance(v, ast.Name) and hops < 4:
+      d = [st for st in ast.walk(fn.node) if isinstance(st, ast.Assign) and
+           len(st.targets) == 1 and dotted(st.targets[0]) == v.id and
+           (st.lineno, st.col_offset) < (call.lineno, call.col_offset)]
+      if not d:
+        break
+      v = max(d, key=lambda st: (st.lineno, st.col_offset)).value
+      hops += 1
+    if not isinstance(v, ast.Call):
+      continue
+    ext = prog.ext_name(fn.module, v.func) or ''
+    if ext not in ('np.tile', 'np.repeat') or len(v.args) < 2:
+      continue
+    n += 1
+    k = norm_text(v.args[1]).replace(' ', '')
+    a, b = [norm_text(e).replace(' ', '') for e in shp.elts]
+    ok = (ext == 'np.tile' and k == a) or (ext == 'np.repeat' and k == b)
+    res.check(ok, 'E7', '%s|replication:%s' % (
+        fn.qualname, norm_text(kw.get('name') or call.args[0])[:30]
+        if (kw.get('name') is not None or call.args) else '?'), fn.loc(v),
+              '%s(v, %s) fills the [%s, %s] variable row by row' % (
+                  ext, k, a, b),
+              'the initial value of a [%s, %s] variable is %s(v, %s): '
+              'np.tile(v, %s) copies v into every row, np.repeat(v, %s) '
+              'repeats each element along a row - this pairing scrambles '
+              'the per-unit rows' % (a, b, ext, k, a, b))
+  if not n:
+    raise AnalysisError('PWLCalibration.build: no replicated initial value '
+                        'found (learned interior keypoints)')
 
 
 def _bad(node, what, *expected):
